@@ -845,7 +845,7 @@ let () =
 (* ---- forests ---- *)
 let () =
   register "c02.forest"
-    ~doc:"well-formed units written by the spec encoder enc_forest: random trees, deep chains (to 300), combs, 0..200 siblings, empty child lists, several top-level entries, null padding; every unit kind / version 2-5 / format / address size / byte order; DW_AT_sibling on none / all / a random subset of abbreviations at any attribute position, widths ref1/2/4/8; abbreviation code schemes sequential, reversed, permuted, sparse, gap, huge; attributes of 30 forms incl. indirect and implicit_const. Expected = preorder of Spec/Forest.v, every navigation style"
+    ~doc:"well-formed units written by the spec encoder enc_forest: random trees, deep chains (to 300), combs, 0..200 siblings, empty child lists, several top-level entries, null padding; every unit kind / version 2-5 / format / address size / byte order; DW_AT_sibling on none / all / a random subset of abbreviations at any attribute position, widths ref1/2/4/8; abbreviation code schemes sequential, reversed, permuted, sparse, gap, huge; attributes of 30 forms incl. indirect and implicit_const; every fourth unit is the shape on which a wrong depth after the DW_AT_sibling fast path shows (a child without sibling pointer whose subtree holds a has-children entry with one, following siblings, nested up to 4 levels). Expected = preorder of Spec/Forest.v, every navigation style; the partial traversals (tokens skip = tree iterator, walk = cloned cursors) under two selection strategies per unit (skip subtrees / stop after 0, 1, 2 children / the on-purpose ones: do not descend into, or leave after the first child, every entry that has children but no DW_AT_sibling), expected = sel_tree / sel_list of Spec/ForestSel.v"
     (fun ~seed ~n emit ->
       sharded ~seed ~n emit (fun i r ->
         let trap = i mod 4 = 3 in
